@@ -13,7 +13,8 @@ EXPLANATION = ("generate_macro + generate_macro_application are executed on the 
                "arguments, call-site symbols with symbolic values, argument expressions, names that coincide with parameter names, arguments "
                "evaluated from an inner call-site scope, forward (deferred) arguments incl. ones that also mention a coinciding name, code-block "
                "arguments, too few arguments, undefined macro.  Obligations: fresh-block structure, parameter == call-site value, caller scope "
-               "untouched, labels local, deferral and its later call-site evaluation.  'Equals the inlined twin' is the bounded part.")
+               "untouched, labels local, deferral and its later call-site evaluation.  'Equals the inlined twin' is the bounded part."
+               "  Also proved: the argument list from the token list (code-block arguments in any position), exports of a named scope in the body stop at the application's scope, value nodes re-evaluate (deferred arguments bound late are seen at emission).")
 TRUSTED = ["the real eval_expression on one/two-term expressions (C06)"]
 ASSUMPTIONS = ["macro bodies: label + data statements (other statement kinds go through _code_gen's dispatch)", "parameter counts 0-3",
                "composition 'same structure as a block + call-site values => same output as the inlined twin' argued in DESIGN.md; bounded twins through "
